@@ -28,23 +28,49 @@ def conflict_loop_is_matching(fi: FuncInfo, lst: str) -> Tuple[bool, str]:
         return False, "no `while True` resolution loop"
     w = whiles[0]
     body = w.body
-    if len(body) != 3:
-        return False, f"resolution loop has {len(body)} statements, expected 3 (index, collect, resolve)"
+    if len(body) < 3:
+        return False, f"resolution loop has {len(body)} statements, expected at least 3 (index, collect, resolve)"
     if flat(body[0]) != flat("matches = defaultdict(set)"):
         return False, "the per-residue index is not rebuilt (matches = defaultdict(set)) in every round"
     col = body[1]
     if not (isinstance(col, ast.For) and norm(col.iter) == lst and [flat(s) for s in col.body] == [flat(f"matches[{norm(col.target)}.nt1_3d].add({norm(col.target)})"), flat(f"matches[{norm(col.target)}.nt2_3d].add({norm(col.target)})")]):
         return False, "pairs are not indexed under both of their residues"
-    res = body[2]
-    if not (isinstance(res, ast.For) and norm(res.iter) == "matches.values()" and [norm(s) for s in res.orelse] == ["break"]):
-        return False, "the loop is not left through the else of `for pairs in matches.values()`"
-    v = norm(res.target)
-    if not (len(res.body) == 1 and isinstance(res.body[0], ast.If) and norm(res.body[0].test) in (f"len({v}) > 1", f"len({v}) >= 2")):
-        return False, "conflict test is not len(pairs) > 1"
-    inner = [norm(s) for s in res.body[0].body]
-    if not (len(inner) == 3 and inner[0] == f"{v} = sorted({v}, key=pair_scoring_function)" and inner[1] == f"{lst}.remove({v}[-1])" and inner[2] == "break"):
-        return False, f"a conflict is not resolved by removing the worst-scored pair and re-examining: {inner}"
-    return True, "while True / for ... if len(pairs) > 1: remove worst; break / else: break"
+    rest = body[2:]
+    res = rest[0]
+    if isinstance(res, ast.For) and len(rest) == 1:
+        if not (norm(res.iter) == "matches.values()" and [norm(s) for s in res.orelse] == ["break"]):
+            return False, "the loop is not left through the else of `for pairs in matches.values()`"
+        v = norm(res.target)
+        if not (len(res.body) == 1 and isinstance(res.body[0], ast.If) and norm(res.body[0].test) in (f"len({v}) > 1", f"len({v}) >= 2")):
+            return False, "conflict test is not len(pairs) > 1"
+        inner = [norm(s) for s in res.body[0].body]
+        if not (len(inner) == 3 and inner[0] == f"{v} = sorted({v}, key=pair_scoring_function)" and inner[1] == f"{lst}.remove({v}[-1])" and inner[2] == "break"):
+            return False, f"a conflict is not resolved by removing the worst-scored pair and re-examining: {inner}"
+        return True, "while True / for ... if len(pairs) > 1: remove worst; break / else: break"
+    # second idiom: conflicted = next((p for p in matches.values() if len(p) > 1), None); if conflicted is None: break; remove worst
+    if isinstance(res, ast.Assign) and isinstance(res.targets[0], ast.Name) and isinstance(res.value, ast.Call) and astq.callee_name(res.value) == "next" and len(res.value.args) == 2 and norm(res.value.args[1]) == "None":
+        c = res.targets[0].id
+        gen = res.value.args[0]
+        if not (isinstance(gen, (ast.GeneratorExp, ast.ListComp)) and len(gen.generators) == 1 and norm(gen.generators[0].iter) == "matches.values()" and isinstance(gen.generators[0].target, ast.Name)):
+            return False, "the conflicted set is not searched over matches.values()"
+        p = gen.generators[0].target.id
+        if not (norm(gen.elt) == p and [norm(x) for x in gen.generators[0].ifs] in ([f"len({p}) > 1"], [f"len({p}) >= 2"])):
+            return False, "conflict test is not len(pairs) > 1"
+        if not (len(rest) >= 2 and isinstance(rest[1], ast.If) and norm(rest[1].test) == f"{c} is None" and [norm(x) for x in rest[1].body] == ["break"] and not rest[1].orelse):
+            return False, "the loop is not left exactly when no residue has more than one pair"
+        tail = rest[2:]
+        if any(isinstance(n, (ast.Break, ast.Continue, ast.Return)) for t in tail for n in ast.walk(t)):
+            return False, "another exit after the conflict was found"
+        rem = [n for t in tail for n in ast.walk(t) if isinstance(n, ast.Call) and isinstance(n.func, ast.Attribute) and n.func.attr == "remove" and norm(n.func.value) == lst]
+        if len(rem) != 1:
+            return False, f"{len(rem)} removals after a conflict was found, expected one"
+        from sa.defuse import Inliner
+
+        arg = Inliner(fi.node).inline(rem[0].args[0], [t for t in tail if any(n is rem[0] for n in ast.walk(t))][0], stop=(c,))
+        if norm(arg) not in (f"sorted({c}, key=pair_scoring_function)[-1]", f"max({c}, key=pair_scoring_function)"):
+            return False, f"the removed pair `{norm(arg)}` is not the worst-scored member of the conflicted set"
+        return True, "while True / conflicted = next(sets with more than one pair, None); none -> break; remove worst"
+    return False, f"resolution step not recognised: {[norm(x)[:40] for x in rest]}"
 
 
 def check_bpseq_matching(chk) -> None:
@@ -96,33 +122,149 @@ def check_lifting(chk) -> None:
         d = {norm(s.targets[0]): flat(s.value) for s in loop.body if isinstance(s, ast.Assign)}
         ok = d.get("nt1") == flat(f"self.structure3d.find_residue({x}.nt1.label, {x}.nt1.auth)") and d.get("nt2") == flat(f"self.structure3d.find_residue({x}.nt2.label, {x}.nt2.auth)")
         chk.expect(ok, "lifting-resolve", fi.site(loop), "both ends are resolved in the structure by (label, auth)", "residues of an entry are not resolved by find_residue(label, auth) of their own end", K(fi, "resolve"))
-        gi = [s for s in loop.body if isinstance(s, ast.If)]
-        ok = len(gi) == 1 and norm(gi[0].test) == "nt1 is not None and nt2 is not None" and not gi[0].orelse
-        chk.expect(ok, "lifting-dangling", fi.site(loop), "entries naming an absent residue are skipped", "dangling entries are not skipped by `nt1 is not None and nt2 is not None`", K(fi, "dangling"))
-        if not ok:
-            continue
-        body = gi[0].body
-        v = norm(body[0].targets[0]) if body and isinstance(body[0], ast.Assign) else None
-        rest = [flat(s) for s in body[1:]]
-        want = [flat(f"if {v} not in used:\n    result.append({v})\n    used.add({v})"), flat(f"if {v}.reverse not in used:\n    result.append({v}.reverse)\n    used.add({v}.reverse)")]
-        chk.expect(
-            rest == want,
-            "lifting-guarded-insert",
-            fi.site(gi[0]),
-            "each entry contributes itself and its reverse, each at most once (test and insert on the same `used` set with the same key)",
-            "the guarded insert of a pair and of its reverse is broken (a value appended without being added to `used`, or tested under another key): duplicates or losses in the lifted list",
-            K(fi, "guarded-insert"),
-            expected=want,
-            found=rest,
-        )
-        if ctor == "BasePair3D":
-            chk.expect(body and flat(body[0].value) == flat(f"BasePair3D({x}.nt1, {x}.nt2, {x}.lw, {x}.saenger, nt1, nt2)"), "lifting-record", fi.site(gi[0]), "BasePair3D(nt1, nt2, lw, saenger, residue1, residue2)", "the lifted pair does not carry (nt1, nt2, lw, saenger, nt1_3d, nt2_3d) of its entry", K(fi, "record"))
-        u = astq.first_assign(fi.node, "used")
-        chk.expect(u is not None and norm(u) == "set()" and len(astq.assignments(fi.node, "used")) == 1, "lifting-guarded-insert", fi.where, "`used` starts empty, once", "`used` is not one set initialised before the loop", K(fi, "used-init"))
+        _lifting_paths(chk, fi, loop, x, ctor)
+    check_lw_reverse(chk)
     rv = repo.func(T3, "BasePair3D.reverse")
     chk.note_function(rv)
     rets = [r for r in rv.node.body if isinstance(r, ast.Return)]
     chk.expect(len(rets) == 1 and flat(rets[0].value) == flat("BasePair3D(self.nt2, self.nt1, self.lw.reverse, self.saenger, self.nt2_3d, self.nt1_3d)"), "lifting-reverse", rv.where, "reverse swaps both residues (2D and 3D) and reverses the class", "BasePair3D.reverse does not swap nt1/nt2, nt1_3d/nt2_3d and reverse lw", K(rv, "reverse"))
+
+
+def _lifting_paths(chk, fi: FuncInfo, loop: ast.For, x: str, ctor: str) -> None:
+    """Every path through the body of the lifting loop: a value is appended to the result only after a `not in` test against
+    the seen-set and is recorded there on the same path; the entry and its reverse both get their turn."""
+    from sa import paths as P
+    from sa.defuse import Inliner
+
+    rets = [r for r in fi.node.body if isinstance(r, ast.Return) and r.value is not None]
+    if len(rets) != 1 or not isinstance(rets[0].value, ast.Name):
+        chk.error("lifting", fi.where, "the lifted list is not returned by name")
+        return
+    R = rets[0].value.id
+    sets = [norm(t) for st, v in ((st, v) for n in [fi.node] for st, v in []) for t in []]
+    seen_names = [st.targets[0].id for st in fi.node.body if isinstance(st, (ast.Assign,)) and isinstance(st.targets[0], ast.Name) and norm(st.value) in ("set()",)] + [st.target.id for st in fi.node.body if isinstance(st, ast.AnnAssign) and isinstance(st.target, ast.Name) and st.value is not None and norm(st.value) == "set()"]
+    if len(seen_names) != 1:
+        chk.error("lifting-guarded-insert", fi.where, f"expected one seen-set initialised to set() before the loop, found {seen_names}")
+        return
+    U = seen_names[0]
+    if any(any(st is n for n in ast.walk(loop)) for st, _ in astq.assignments(fi.node, U)) or len(astq.assignments(fi.node, U)) != 1:
+        chk.violation("lifting-guarded-insert", fi.site(loop), f"`{U}` is re-initialised inside the loop: duplicates across entries are no longer recognised", K(fi, "used-init"))
+        return
+    chk.ok("lifting-guarded-insert", fi.where, f"`{U}` starts empty, once")
+    body = P.unroll_literal_loops(loop.body)
+    all_paths = P.paths(body)
+    # the lifted value: the constructor call assigned in the body
+    ctor_defs = [s for s in ast.walk(loop) if isinstance(s, ast.Assign) and isinstance(s.targets[0], ast.Name) and isinstance(s.value, ast.Call) and astq.callee_name(s.value) == ctor]
+    if len(ctor_defs) != 1:
+        chk.error("lifting", fi.site(loop), f"expected one `{ctor}(...)` per entry")
+        return
+    v = ctor_defs[0].targets[0].id
+    wanted_vals = {v, f"{v}.reverse"}
+    problems = []
+    appended_somewhere = set()
+    n_paths = 0
+    dangling_ok = True
+    for events, exit_ in all_paths:
+        decided = {}
+        none_facts = {}
+        for k, ev in enumerate(events):
+            if ev[0] == "test":
+                t = ev[1]
+                for neg, op in ((False, f" in {U}"), (True, f" not in {U}")):
+                    if t.endswith(op):
+                        decided[t[: -len(op)]] = (ev[2] != neg, k)
+                for nm in ("nt1", "nt2"):
+                    if t in (f"{nm} is not None", f"{nm} is None"):
+                        none_facts[nm] = (ev[2] == (t.endswith("is not None")))
+        apps = [(norm(a.args[0]), a) for a in P.calls_on(events, R, "append") if a.args]
+        adds = [norm(a.args[0]) for a in P.calls_on(events, U, "add") if a.args]
+        if apps:
+            n_paths += 1
+            if none_facts.get("nt1") is not True or none_facts.get("nt2") is not True:
+                dangling_ok = False
+        for val, a in apps:
+            appended_somewhere.add(val)
+            if val not in decided or decided[val][0] is not False:
+                problems.append((a, f"`{R}.append({val})` on a path where `{val} not in {U}` was not established: the value can be lifted twice", f"unguarded:{val}"))
+            if val not in adds:
+                problems.append((a, f"`{val}` is appended to `{R}` but not added to `{U}` on the same path: when the same pair occurs again (e.g. listed from its other end) it is lifted a second time", f"unrecorded:{val}"))
+        for val in adds:
+            if val not in [x2 for x2, _ in apps]:
+                problems.append((loop, f"`{U}.add({val})` on a path that does not append `{val}`: the value is blocked without ever being lifted", f"phantom:{val}"))
+    miss = wanted_vals - appended_somewhere
+    if n_paths == 0:
+        chk.error("lifting-guarded-insert", fi.site(loop), "no path appends to the result")
+        return
+    for m2 in sorted(miss):
+        problems.append((loop, f"`{m2}` is never appended: {'the reverse orientation of an entry is lost' if m2.endswith('.reverse') else 'the entry itself is lost'}", f"missing:{m2}"))
+    extra_vals = appended_somewhere - wanted_vals
+    for e2 in sorted(extra_vals):
+        problems.append((loop, f"unexpected value `{e2}` appended to the lifted list", f"extra:{e2}"))
+    seen = set()
+    for node, msg, key in problems:
+        if key in seen:
+            continue
+        seen.add(key)
+        chk.violation("lifting-guarded-insert", fi.site(node), msg, K(fi, f"guarded-insert:{key}"))
+    if not problems:
+        chk.ok("lifting-guarded-insert", fi.site(loop), f"{len(all_paths)} paths: each entry contributes itself and its reverse, each only after `not in {U}` and recorded in `{U}` on the same path")
+    chk.expect(dangling_ok, "lifting-dangling", fi.site(loop), "entries naming an absent residue are skipped (appends only when both residues were found)", "a value is lifted on a path where one of the two residues was not established to be present", K(fi, "dangling"))
+    if ctor == "BasePair3D":
+        chk.expect(flat(ctor_defs[0].value) == flat(f"BasePair3D({x}.nt1, {x}.nt2, {x}.lw, {x}.saenger, nt1, nt2)"), "lifting-record", fi.site(ctor_defs[0]), "BasePair3D(nt1, nt2, lw, saenger, residue1, residue2)", "the lifted pair does not carry (nt1, nt2, lw, saenger, nt1_3d, nt2_3d) of its entry", K(fi, "record"))
+
+
+def check_lw_reverse(chk) -> None:
+    """LeontisWesthof.reverse evaluated on all 18 members: the class read from the other nucleotide swaps the two edges."""
+    import copy
+
+    from sa.consteval import Folder
+
+    repo = chk.repo
+    fi = repo.func("common", "LeontisWesthof.reverse")
+    chk.note_function(fi)
+    rets = [r for r in astq.walk_no_nested(fi.node) if isinstance(r, ast.Return) and r.value is not None]
+    if len(rets) != 1:
+        chk.error("lw-reverse", fi.where, "LeontisWesthof.reverse is not a single return expression")
+        return
+
+    class _E:
+        def __init__(s2, m):
+            s2.name = m
+            s2.value = m
+
+        def __str__(s2):
+            return s2.name
+
+        def __eq__(s2, o):
+            return str(o) == s2.name
+
+        def __hash__(s2):
+            return hash(s2.name)
+
+    class _Sub(ast.NodeTransformer):
+        def visit_Subscript(s2, n):
+            if isinstance(n.value, ast.Name) and n.value.id == "LeontisWesthof":
+                return s2.visit(n.slice)
+            return s2.generic_visit(n)
+
+        def visit_Call(s2, n):
+            if isinstance(n.func, ast.Name) and n.func.id == "LeontisWesthof" and len(n.args) == 1:
+                return s2.visit(n.args[0])
+            return s2.generic_visit(n)
+
+    e = ast.fix_missing_locations(_Sub().visit(copy.deepcopy(rets[0].value)))
+    members = repo.enum_members("common", "LeontisWesthof")
+    wrong = {}
+    try:
+        for m in members:
+            got = Folder(repo, "common", {"self": _E(m)}).fold(e)
+            want = m[0] + m[2] + m[1]
+            if str(got) != want:
+                wrong[m] = str(got)
+    except Exception as ex:
+        chk.error("lw-reverse", fi.site(rets[0]), f"`{norm(rets[0].value)[:80]}` not evaluable on the members: {ex}")
+        return
+    chk.expect(not wrong, "lw-reverse", fi.site(rets[0]), f"reverse swaps the two edge letters on all {len(members)} classes", f"LeontisWesthof.reverse does not swap the edges for {sorted(wrong)} (gives {wrong}): the pair read from the other nucleotide keeps the wrong class and extended/lifted pairs disagree", K(fi, "lw-reverse"), expected={m: m[0] + m[2] + m[1] for m in wrong}, found=wrong)
 
 
 def gap_rule(fi: FuncInfo) -> Optional[Dict[str, Any]]:
@@ -157,33 +299,54 @@ def check_numbering(chk) -> None:
         chk.error("gap-rule-agree", fi.where, "gap placeholder loop not found in one of the two functions")
     else:
         def canon(atoms):
-            out = set()
+            """-> (recognised atoms, connectivity findings, unknown atoms)"""
+            out, wrong, unknown = set(), [], []
             for a in atoms:
-                if a in ("self.find_gaps and j > 0", "self.find_gaps"):
+                if a == "self.find_gaps":
                     out.add("find_gaps")
-                elif a in ("j > 0", "i > 0"):
-                    continue  # `previous` exists: the other site starts its loop at 1
-                elif a in ("not previous.is_connected(residue) and previous.chain == residue.chain",):
-                    out |= {"not previous.is_connected(residue)", "same chain"}
+                elif a in ("j > 0", "i > 0", "previous is not None", "not previous is None", "previous"):
+                    continue  # `previous` exists
                 elif a == "not previous.is_connected(residue)":
                     out.add(a)
-                elif a in ("not residue.chain != previous.chain", "previous.chain == residue.chain", "residue.chain == previous.chain"):
+                elif a in ("not residue.is_connected(previous)", "previous.is_connected(residue)", "residue.is_connected(previous)"):
+                    wrong.append(a)
+                elif a in ("not residue.chain != previous.chain", "previous.chain == residue.chain", "residue.chain == previous.chain", "not previous.chain != residue.chain"):
                     out.add("same chain")
+                elif a in ("residue.chain != previous.chain", "previous.chain != residue.chain", "not previous.chain == residue.chain", "not residue.chain == previous.chain"):
+                    wrong.append(a)
                 else:
-                    out.add(a)
-            return out
-        a1, a2 = canon(g1["atoms"]), canon(g2["atoms"])
+                    unknown.append(a)
+            return out, wrong, unknown
+
         wanted = {"find_gaps", "not previous.is_connected(residue)", "same chain"}
-        chk.expect(a1 == a2 == wanted and g1["count"] == g2["count"] == "residue.number - previous.number - 1", "gap-rule-agree", fi.site(g1["loop"]), "both places insert `number - previous.number - 1` placeholders iff find_gaps, same chain and the previous residue is not connected to this one", "the gap-placeholder rules of __generate_bpseq and strands_sequences disagree (guards or count): the BPSEQ sequence no longer matches the strand sequences", K(fi, "gap-rule"), expected=sorted(wanted), found={"bpseq": sorted(a1) + [g1["count"]], "strands": sorted(a2) + [g2["count"]]})
-        prev1 = [norm(v) for s, v in astq.assignments(fi.node, "previous") if v is not None]
-        prev2 = [norm(v) for s, v in astq.assignments(ss.node, "previous") if v is not None]
-        chk.expect(prev1 == ["nucleotides[j - 1]"] and prev2 == ["nucleotides[i - 1]"], "gap-rule-agree", fi.where, "`previous` is the preceding nucleotide in both", "`previous` is not the preceding nucleotide", K(fi, "previous"))
+        for tag, g, f2 in (("BPSEQ", g1, fi), ("strand sequences", g2, ss)):
+            a, wrong, unknown = canon(g["atoms"])
+            if unknown:
+                chk.error("gap-rule-agree", f2.site(g["loop"]), f"{tag}: conditions {unknown} of the gap placeholders not understood")
+                continue
+            if wrong:
+                chk.violation("gap-rule-agree", f2.site(g["loop"]), f"{tag}: gap placeholders are inserted under `{wrong[0]}`: O3'-P connectivity is directional, the test must be `not previous.is_connected(residue)` within one chain, as in the sibling rule", K(f2, "gap-rule"), expected=sorted(wanted), found=sorted(g["atoms"]))
+                continue
+            chk.expect(a == wanted, "gap-rule-agree", f2.site(g["loop"]), f"{tag}: placeholders iff find_gaps, same chain and the previous residue is not connected to this one", f"{tag}: the gap placeholders are not guarded by all of find_gaps / same chain / not previous.is_connected(residue) (missing: {sorted(wanted - a)}): the BPSEQ sequence no longer matches the strand sequences", K(f2, "gap-rule"), expected=sorted(wanted), found=sorted(a))
+            chk.expect(g["count"] == "residue.number - previous.number - 1", "gap-rule-agree", f2.site(g["loop"]), f"{tag}: `number - previous.number - 1` placeholders", f"{tag}: the number of placeholders is `{g['count']}`, not residue.number - previous.number - 1", K(f2, "gap-count"), found=g["count"])
+        # `previous` is the preceding nucleotide
+        for f2, idx in ((fi, "j"), (ss, "i")):
+            defs = [(st, v) for st, v in astq.assignments(f2.node, "previous") if v is not None]
+            texts = sorted(norm(v) for _, v in defs)
+            lp = [l for l in f2.node.body if isinstance(l, ast.For)]
+            ok = texts == [f"nucleotides[{idx} - 1]"] or texts == [f"nucleotides[{idx} - 1] if {idx} > 0 else None"]
+            if not ok and sorted(texts) == ["None", "residue"] and lp:
+                # carried variable: initialised to None before the loop, set to the current residue as the last statement of every round
+                l0 = lp[0]
+                last = l0.body[-1]
+                ok = norm(last) == "previous = residue" and not any(isinstance(n, ast.Continue) for n in ast.walk(l0)) and norm(l0.iter) in ("nucleotides", "enumerate(nucleotides)")
+            chk.expect(ok, "gap-rule-agree", f2.where, "`previous` is the preceding nucleotide", f"`previous` ({texts}) is not the preceding nucleotide", K(f2, "previous"))
     # numbering
     init = astq.first_assign(fi.node, "i")
     loops = [l for l in fi.node.body if isinstance(l, ast.For)]
-    ok = init is not None and norm(init) == "1" and len(loops) == 2 and norm(loops[0].iter) == "enumerate(nucleotides)"
+    ok = init is not None and norm(init) == "1" and len(loops) == 2 and norm(loops[0].iter) in ("enumerate(nucleotides)", "nucleotides")
     if ok:
-        tail = [flat(s) for s in loops[0].body[-4:]]
+        tail = [flat(s) for s in loops[0].body if flat(s) != flat("previous = residue")][-4:]
         ok = tail == [flat("result[i] = [i, residue.one_letter_name, 0]"), flat("residue_map[residue] = i"), flat("index_to_residue_map[i] = residue"), flat("i += 1")]
         gl = g1["loop"] if g1 else None
         ok = ok and gl is not None and [flat(s) for s in gl.body] == [flat("result[i] = [i, '?', 0]"), flat("i += 1")]
@@ -309,12 +472,13 @@ def run(chk) -> None:
     )
     chk.trusted = ["CPython ast", "BpSeq.dot_bracket is lossless (C01/C02/C13)"]
     chk.assumptions = ["which pair survives a conflict is not decided beyond the scoring key", "text equality end to end is not decided"]
+    chk.robust |= {"lifting-guarded-insert", "lifting-dangling", "lw-reverse", "gap-rule-agree", "removal-under-conflict"}
     check_lifting(chk)
     check_bpseq_matching(chk)
     check_numbering(chk)
     check_slicing(chk)
     check_extended(chk)
-    for rule, n in (("matching-typestate", 5), ("lifting-guarded-insert", 4), ("gap-rule-agree", 2), ("numbering", 2), ("strand-slices", 1), ("symmetric-pairs", 1)):
+    for rule, n in (("matching-typestate", 5), ("lifting-guarded-insert", 4), ("gap-rule-agree", 4), ("lw-reverse", 1), ("numbering", 2), ("strand-slices", 1), ("symmetric-pairs", 1)):
         chk.floor(rule, n)
 
 
